@@ -383,7 +383,7 @@ def check_c18(m, tier, seed):
     nseeds = 16 if thorough else 4
     env["MIRIFLAGS"] = "-Zmiri-disable-isolation -Zmiri-tree-borrows -Zmiri-ignore-leaks -Zmiri-many-seeds=0..%d" % nseeds
     rc, out, dt = m.run(["cargo", "+nightly", "miri", "run", "--offline", "--quiet", "--features", "par_iter", "--bin", "readers", "--",
-                         "--seed", str(seed), "--arenas", "3" if thorough else "2", "--threads", "3", "--len", "40", "--max-live", "8", "--reps", "1"],
+                         "--seed", str(seed), "--arenas", "3" if thorough else "2", "--threads", "3" if thorough else "2", "--len", "40" if thorough else "24", "--max-live", "8" if thorough else "6", "--reps", "1"],
                         cwd=m.HARNESS, env=env, timeout=3000)
     runs = [json.loads(l) for l in out.splitlines() if l.startswith("{\"arenas\"")]
     if "Undefined Behavior" in out or "Data race" in out or "data race" in out:
